@@ -480,6 +480,31 @@ def discharge_assert_in_caller(mir, s, param_ranges=None):
     return None
 
 
+def is_or_helper_of(mir, fn, root, generic=None):
+    """fn is root, or a function whose only-caller chain leads to root; with generic=<name>: every call along that chain passes the
+    caller's own generic parameter of that name on (so that what is known about root's instantiations holds for fn as well)"""
+    f = fn.split("::{closure")[0]
+    for _ in range(4):
+        if f == root:
+            return True
+        g = sole_caller(mir, f)
+        if g is None:
+            return False
+        if generic is not None:
+            gb = mir.body(g)
+            ok = False
+            for _bb, t in (gb.calls() if gb is not None else []):
+                d, rd, ga, _f = callee(t)
+                if (rd or d) == f or d == f:
+                    ok = generic in [str(x) for x in (ga or [])]
+                    if not ok:
+                        return False
+            if not ok:
+                return False
+        f = g
+    return False
+
+
 def _callsites(mir, fn):
     """(caller body, block, terminator) of every workspace call to fn"""
     sole_caller(mir, fn)          # builds the caller map
